@@ -142,6 +142,7 @@ def run(ctx):
     if bad: ctx.violation(bad)
     get_info_cases(ctx)
     played_with_selected(ctx)
+    unmapped_is_ignored(ctx)
     from tools import c02
     c02.table_stability(ctx)          # the table a version selects is still the FULL table after other players were built and after lenient failures
 
@@ -175,6 +176,42 @@ def played_with_selected(ctx):
                                    how='a battle encoded against wows/%s, written with that version string; ReplayParser(path, strict=True).get_info()["hidden"] compared with the events written' % v))
     finally:
         shutil.rmtree(tmp, ignore_errors=True)
+
+
+def unmapped_is_ignored(ctx):
+    """each side of the 12.6.0 switch uses ITS table: a record whose type id the table of the replay's version does not map is skipped, whatever its
+    payload looks like (here: the byte layout of an own-player position packet naming an existing vehicle, and of a server position packet) -
+    the entities of a battle are what they are without those records.  Versions next to the switch, the oldest and the newest."""
+    import random, struct
+    from tools import battle, synth, recordings
+    from replay_unpack.clients import wows
+    wv = battle.wows_versions()
+    olds = sorted((v for v in wv if tuple(map(int, v.split('_')[:3])) < (12, 6, 0)), key=lambda v: tuple(map(int, v.split('_')[:3])))
+    news = sorted((v for v in wv if tuple(map(int, v.split('_')[:3])) >= (12, 6, 0)), key=lambda v: tuple(map(int, v.split('_')[:3])))
+    for v in [olds[0], olds[len(olds) // 2], olds[-1], news[0], news[-1]]:
+        side = 'wows126' if v in news else 'wows'
+        mapped = set(synth.TABLE_IDS[side].values())
+        b, vs = battle.build_wows(v, random.Random(31), battle_end=False)
+        base = b.stream()
+        extra = b''
+        for tid in range(0, 0x40):
+            if tid in mapped: continue
+            extra += synth.frame(tid, 0, struct.pack('<ii', 500, 0) + struct.pack('<6f', 4321.0, 12.0, -1234.0, 1.0, 0.5, 0.25))
+            extra += synth.frame(tid, 0, struct.pack('<ii', 500, 0) + struct.pack('<9f', 4321.0, 12.0, -1234.0, 0, 0, 0, 1.0, 0.5, 0.25) + b'\x00')
+        outs = []
+        for st in (base, base + extra):
+            pl = wows.ReplayPlayer(v.split('_'))
+            try: pl.play(st, True); outs.append(recordings.dump_entities(pl._battle_controller))
+            except Exception as e: outs.append(['raises %s: %s' % (type(e).__name__, str(e)[:100])])
+        ctx.case(('unmapped-ignored', v)); ctx.count('unmapped-records-on-real-versions', 2 * (0x40 - len([t for t in mapped if t < 0x40])))
+        if outs[0] != outs[1]:
+            fd = recordings.first_diff(outs[0], outs[1])
+            ctx.violation(dict(kind='table-of-the-other-side', version='wows/' + v, table_expected='renumbered (12.6.0 on)' if v in news else 'old (before 12.6.0)',
+                               first_difference=dict(line=fd[0], without_the_records=fd[1][:200], with_the_records=fd[2][:200]) if fd else None,
+                               how='tools/battle.build_wows("%s", random.Random(31), battle_end=False); wows.ReplayPlayer(version).play(stream, True) with and without two records '
+                                   '(32-byte own-player-position layout and 45-byte position layout naming vehicle 500) for every type id below 0x40 that the table of this side does not map; '
+                                   'tools/recordings.dump_entities(controller) must be the same' % v))
+            return
 
 
 def replay(ctx, path):
